@@ -7,6 +7,7 @@ import NutsProofs.Props.C04
 import NutsProofs.Lemmas.BPTreeRefine
 import NutsProofs.Lemmas.KVRefine
 import NutsProofs.Lemmas.Hints
+import NutsProofs.Lemmas.PrefixRefine
 namespace NutsProofs.C01
 open Nuts Nuts.Model Nuts.Model.DB NutsProofs
 
@@ -203,34 +204,7 @@ the same puts and deletes; and `Get`, `GetAll`, `RangeScan` of the index under `
 under `live` (`isExpired_eq_not_live` ties the regenerated `IsExpired` kernel, uint64 arithmetic included, to
 the spec's `now < timestamp + ttl`). -/
 
-open NutsProofs.Reopen NutsProofs.KVRefine in
-/-- every transaction of the history writes API records: flag Set or Delete, expiry time within 64 bits -/
-def OpsRecOk (ops : List Op) : Prop := ∀ t, Op.commit t ∈ ops → ∀ r ∈ t, RecOk r
-
-open NutsProofs.Reopen NutsProofs.KVRefine in
-theorem logOf_recOk (ops : List Op) (h : OpsRecOk ops) : ∀ r ∈ logOf ops, RecOk r := by
-  induction ops with
-  | nil => intro r hr; cases hr
-  | cons op rest ih =>
-    have hrest : OpsRecOk rest := fun t ht => h t (List.mem_cons_of_mem _ ht)
-    cases op with
-    | commit t =>
-      intro r hr
-      simp only [logOf, List.mem_append] at hr
-      rcases hr with hr | hr
-      · -- a marked record is a record of the transaction with the status byte set
-        have ht := h t (by simp)
-        clear ih hrest h
-        induction t with
-        | nil => cases hr
-        | cons q qs ihq =>
-          simp only [marked, List.mem_cons] at hr
-          rcases hr with rfl | hr
-          · have := ht q (by simp)
-            unfold markLast; split <;> exact this
-          · exact ihq hr (fun x hx => ht x (by simp [hx]))
-      · exact ih hrest r hr
-    | reopen o => intro r hr; exact ih hrest r (by simpa [logOf] using hr)
+open NutsProofs.KVRefine (OpsRecOk logOf_recOk)
 
 open NutsProofs.Reopen NutsProofs.KVRefine in
 /-- **C01 (key+value mode, every history).** Start from the empty database; commit any sequence of
@@ -313,6 +287,40 @@ theorem C01_reads_refine_ordered_map_both_modes (opt0 : Opts) (ops : List Op) (h
   · intro k; rw [← value_vis, hg b k now, value_vis]; exact t1 k
   · rw [← pairs_visL, ha b now, pairs_visL]; exact t2
   · intro st en; rw [← pairs_visL, hr b st en now, pairs_visL]; exact t3 st en
+
+open NutsProofs.Reopen NutsProofs.KVRefine NutsProofs.Hints NutsProofs.PrefixRefine in
+/-- **C01 (prefix scans, both RAM index modes, every history).** `PrefixScan(prefix, 0, -1)` — no offset, no
+limit — returns exactly the live pairs whose key has the prefix, in ascending key order, and
+`PrefixSearchScan` those whose key also satisfies the match predicate; an error when there are none. (The
+tree walk — descend to the leaf of the prefix, skip smaller keys in that leaf, follow the chain while keys
+have the prefix — is the list walk by `C03_tree_prefix_scan_is_walk`; in a list sorted by `bytes.Compare` the
+keys with a prefix are one block that starts at the first key not below the prefix: `walk_eq_filter`.) -/
+theorem C01_prefix_scans_refine_ordered_map (opt0 : Opts) (ops : List Op) (hok : OpsOk (openDB opt0 []).1 ops)
+    (hrec : OpsRecOk ops) (now : Nat) (hn : now < 2 ^ 64) (b pre : Bytes) (mt : Bytes → Bool) :
+    let s := ops.foldl stepOp (openDB opt0 []).1
+    let spec : Nuts.Spec.DB.SpecDB := { kv := specOfOps ops }
+    let want := (Nuts.Spec.DB.liveOf spec b now).filter fun x => hasPrefix x.1 pre && mt x.1
+    (prefixScan s b pre 0 (-1) now mt).map pairsOf = if want = [] then .err else .ok want := by
+  intro s spec want
+  have hinv : LogInv s := logInv_ops ops _ (logInv_init opt0) hok
+  have hpk : Packed s := packed_ops ops _ (logInv_init opt0) (packed_init opt0) hok
+  have hlog : (allRecs s.files).map (·.1) = logOf ops := by
+    have h0 : (allRecs (openDB opt0 []).1.files).map (·.1) = [] := by simp [openDB, fileEnsure, allRecs]
+    have := log_of_ops ops _ (logInv_init opt0) hok
+    rw [h0, List.nil_append] at this
+    exact this
+  have hL : ∀ x ∈ allRecs (withMode0 s).files, RecOk x.1 := by
+    intro x hx
+    apply logOf_recOk ops hrec
+    rw [← hlog]; exact List.mem_map.mpr ⟨x, hx, rfl⟩
+  have hspec : specOfLog ((allRecs (withMode0 s).files).map (·.1)) = specOfOps ops := by
+    show specOfLog ((allRecs s.files).map (·.1)) = _
+    rw [hlog]; exact specOfLog_logOf ops []
+  obtain ⟨_, _, _, hp⟩ := reads_mode_independent s hinv hpk
+  have := prefix_reads_refine (withMode0 s) (logInv_withMode0 s hinv) rfl hL now hn b pre mt
+  simp only [hspec] at this
+  rw [← pairs_visL, hp b pre 0 (-1) now mt, pairs_visL]
+  exact this
 
 /-- a one-record transaction for the witness below: `Put(bucket a, key k, 16 bytes)` / `Delete`, id `id` -/
 def wPut (id k : Nat) : List Rec := [{ (mkRec [97] [k.toUInt8] (List.replicate 16 120) flagSet dsKV) with txid := id }]
